@@ -28,7 +28,6 @@ import binascii
 import gzip
 import json
 import math
-import struct
 from fractions import Fraction
 
 from .. import core
@@ -53,14 +52,14 @@ ASSUMPTIONS = [
     "panics/crashes are C14's business and are counted inconclusive here",
 ]
 PLAN = {
-    "quick": {"scale": 3, "max_bytes": 4096, "max_bits": 5000, "max_exp": 320},
+    "quick": {"scale": 1, "max_bytes": 4096, "max_bits": 5000, "max_exp": 320},
     "thorough": {"scale": 24, "max_bytes": 65536, "max_bits": 5000, "max_exp": 3000},
 }
 # cases per unit of scale
 BASE_COUNTS = {"intstr": 6000, "radix": 6000, "rational": 9000, "hex": 2000, "base64": 2000, "utf8": 3000,
                "compress": 1200, "chrord": 2000, "json": 6000, "literal": 4000, "repr": 3000, "render": 6000}
 
-REG = dict(level="exploration", min_nontrivial=60000, min_nontrivial_thorough=500000,
+REG = dict(level="exploration", min_nontrivial=20000, min_nontrivial_thorough=500000,
            technique="runtime reference-model monitor: Python stdlib codecs (int/str, Fraction, binascii, base64, gzip, json, str.encode) as oracle over seeded and exhaustive input sweeps, with the integer representation flag observed",
            claim="On every executed case the interpreter's conversion/codec result equalled the independently computed one, inverse pairs composed to the identity, JSON text / repr evaluated to what json_decode gives, and equal integers in machine-word and big representation rendered identically. chr/ord and the radix boundary grid are enumerated completely; everything else is exploration, not proof.",
            note="Trusts CPython's codecs and the harness's structural value dump. Hex/radix digit case, unsigned 64-bit JSON integers and JSON-only syntax (e+N exponents) are outside the judged claim (see assumptions).")
@@ -493,14 +492,14 @@ def jdiff(exp, got, out, path="$"):
     out.append(("shape", path, exp, got))
 
 
-def diff_findings(prefix, exp, got, label):
+def diff_findings(prefix, exp, got, label, en="expected", gn="got"):
     """-> list of (key, what, expected) grouped by mismatch class."""
     out = []
     jdiff(exp, got, out)
     res = {}
     for cls, path, e, g in out:
         if cls not in res:
-            res[cls] = ("%s|%s" % (prefix, cls), "%s: at %s expected %s, got %s" % (label, path, short(repr(e), 60), short(repr(g), 60)), short(repr(e), 200))
+            res[cls] = ("%s|%s" % (prefix, cls), "%s: at %s %s %s, %s %s" % (label, path, en, short(repr(e), 60), gn, short(repr(g), 60)), short(repr(e), 200))
     return list(res.values())
 
 
@@ -878,7 +877,7 @@ def literal_compare(prefix, text_t, ev_lit, ev_dec, pyval):
     """Findings for `evaluating T` vs `json_decode(T)`.  Only agreement of the two is judged."""
     a = c2py(ev_lit.get("v"))
     b = c2py(ev_dec.get("v"))
-    return diff_findings(prefix, b, a, "%s evaluated as a literal vs json_decode of it (first is json_decode)" % short(text_t, 70))
+    return diff_findings(prefix, b, a, "text %s" % short(text_t, 70), en="json_decode gives", gn="evaluated as a Noulith literal it gives")
 
 
 def gen_literal(r):
@@ -930,7 +929,7 @@ def case_render(r, plan):
                 else:
                     key = "C16|render|%s|%s" % (nm, sign)
                 res.append((key, "%s renders %d as %s in machine-word and %s in big representation" % (
-                    nm, n, short(p[0] if p else pair, 50), short(p[1] if p else pair, 50)), "identical renderings"))
+                    nm, n, short(repr(c_str(p[0])) if p else pair, 50), short(repr(c_str(p[1])) if p else pair, 50)), "identical renderings"))
             elif nm in ("str", "$()", "$-infix", "repr", "F{}", "F#d") and c_str(p[0]) != str(n):
                 res.append(("C16|render|%s|decimal" % nm, "%s renders %d as %r" % (nm, n, c_str(p[0])), str(n)))
         lines = (ev.get("out") or "")
@@ -1068,6 +1067,18 @@ def run_literal(sh, rep, w, r, count):
                 sh.count("literal:noulith-literal-differs-from-python(unjudged)")
             if rep.sample_fam == "literal":
                 sh.sample({"family": "literal", "text": short(t, 200), "literal": short(e1.get("v"), 200), "json_decode": short(e2.get("v"), 200)}, cap=1)
+    # JSON-only number syntax (`1e+300`, which json_encode itself emits) is not Noulith literal syntax and
+    # therefore outside the clause (see ASSUMPTIONS): observed and counted, never judged
+    fs = []
+    while len(fs) < max(4, count // 40):
+        f = rand_float(r)
+        if "e+" in repr(f):
+            fs.append(f)
+    evs = core.eval_all(w, [repr(f) for f in fs], jid="c16e")
+    for f, ev in zip(fs, evs):
+        sh.seen("literal-e+:" + repr(f), False)
+        sh.excluded += 1
+        sh.count("excluded:json-only-exponent-syntax(e+N)-as-literal:%s" % ev.get("o"))
 
 
 def run_repr(sh, rep, w, r, count):
